@@ -109,6 +109,15 @@ def build_entry(ent, parent):
     if k == "td":
         return build(ent[1])
     if k == "njt":
+        if len(ent) > 5 and ent[5] is not None:
+            # jagged tensor built from (values, offsets[, lengths]); ent[5] = True: every other row is one shorter than its slot
+            sizes = list(ent[2])
+            offs = torch.tensor([0] + sizes).cumsum(0)
+            vals = make_tensor(ent[1], [sum(sizes)] + list(ent[3]), "plain", ent[4])
+            if ent[5]:
+                lens = torch.tensor([max(sz - 1, 0) if i % 2 == 0 else sz for i, sz in enumerate(sizes)])
+                return torch.nested.nested_tensor_from_jagged(vals, offsets=offs, lengths=lens)
+            return torch.nested.nested_tensor_from_jagged(vals, offsets=offs)
         comps = [make_tensor(ent[1], [l] + list(ent[3]), "plain", ent[4] + i) for i, l in enumerate(ent[2])]
         return torch.nested.nested_tensor(comps, layout=torch.jagged)
     if k == "lazy":
@@ -128,8 +137,10 @@ def leaf_bytes(t):
 
 def obs_leaf(v):
     if isinstance(v, torch.Tensor) and getattr(v, "is_nested", False):
-        comps = [["t", DT_BY_TORCH.get(c.dtype, str(c.dtype)), list(c.shape), leaf_bytes(c)] for c in v.unbind()]
-        return ["njt", comps]
+        # the three components: values, offsets, lengths (None when the tensor has none)
+        vals = v._values
+        return ["njt", [["t", DT_BY_TORCH.get(vals.dtype, str(vals.dtype)), list(vals.shape), leaf_bytes(vals)]],
+                v._offsets.tolist(), None if v._lengths is None else v._lengths.tolist()]
     if isinstance(v, torch.Tensor):
         return ["t", DT_BY_TORCH.get(v.dtype, str(v.dtype)), list(v.shape), leaf_bytes(v)]
     return ["other", type(v).__name__]
@@ -249,6 +260,15 @@ def apply_op(td, op, scratch):
             node = get_node(td, op[1])
             cur = node.get(op[2])
             node.update_({op[2]: make_tensor(DT_BY_TORCH[cur.dtype], list(cur.shape), "plain", op[3])})
+        elif k == "swap":       # the two tensor objects trade places (structural, nothing is copied)
+            node = get_node(td, op[1])
+            a, b = node.get(op[2]), node.get(op[3])
+            node.set(op[2], b)
+            node.set(op[3], a)
+        elif k == "alias":      # one key is bound to another key's tensor (a fresh view object of the same memory)
+            node = get_node(td, op[1])
+            b = node.get(op[3])
+            node.set(op[2], b.view(b.shape))
         elif k == "del":
             get_node(td, op[1]).del_(op[2])
         elif k == "rename":
